@@ -122,17 +122,17 @@ func framePayload(seq, size int, salt uint64) []byte {
 }
 
 type wEvents struct {
-	mu       sync.Mutex
-	cond     *sync.Cond
-	counts   map[string]int
-	maxIn    int
-	hist     map[int]int
-	exited   bool
-	closing  bool
-	order    []string // last events, for witnesses
-	pairs    map[string]bool
-	lastR    string
-	lastW    string
+	mu        sync.Mutex
+	cond      *sync.Cond
+	counts    map[string]int
+	maxIn     int
+	hist      map[int]int
+	exited    bool
+	closing   bool
+	order     []string // last events, for witnesses
+	pairs     map[string]bool
+	lastR     string
+	lastW     string
 	violation string
 }
 
@@ -496,7 +496,9 @@ func TestVerif_C18Rotate(t *testing.T) {
 		rng := c.RNG(idx)
 		k := c18Case{Size: rng.PickInt(16, 1000, 4097), Count: rng.Range(300, 900), Stall: rng.PickInt(0, 0, 4), Chunk: rng.PickInt(0, 2), CutMid: rng.Bool()}
 		total := time.Duration(rng.Range(5000, 7000)) * time.Millisecond
-		c.Case(idx, func() interface{} { return k.String() + fmt.Sprintf(" paced over %v with a %v rotation interval", total, newFileInterval) }, func() {
+		c.Case(idx, func() interface{} {
+			return k.String() + fmt.Sprintf(" paced over %v with a %v rotation interval", total, newFileInterval)
+		}, func() {
 			runC18(c, scratch, idx, k, total)
 		})
 	}
